@@ -6,7 +6,7 @@ Import ListNotations.
 
 (* everything an evaluation may be told from outside *)
 Record oracles (A : CsgOps) := mkOracles {
-  o_uniq : nat -> nat -> bool;
+  o_uniq : heap A -> nat -> bool;
   o_ovl : (sol A * tr A) -> (sol A * tr A) -> bool;
   o_sz : (sol A * tr A) -> Z;
   o_kmax : nat
@@ -317,3 +317,39 @@ Example ex_all_agree :
           [(true, true, 1000); (true, false, 1000); (false, true, 1000); (false, false, 1000);
            (true, true, 2); (false, false, 3)] = true.
 Proof. vm_compute. reflexivity. Qed.
+
+(* ---------------- the disjointness hypothesis is needed, and the concrete box oracle provides it ---------------- *)
+(* In the voxel carrier Compose is juxtaposition (cells covered twice drop out), so it is NOT the union of
+   overlapping operands; BatchUnion with the box oracle computed from the cells (vovl, proved sound in
+   CsgVoxel.vovl_sound) is the union, BatchUnion with a lying oracle is not. *)
+Definition ov_a : list vox * list gen := (vbox 0 2 0 2 0 2, []).
+Definition ov_b : list vox * list gen := (vbox 1 3 1 3 1 3, []).
+Definition ov_c : list vox * list gen := (vbox 5 6 0 1 0 1, [GT 0 0 1]).
+
+Example compose_of_overlapping_is_not_union :
+  vox_seteq (compose VoxOps [fst ov_a; fst ov_b]) (bigU VoxOps [fst ov_a; fst ov_b]) = false.
+Proof. vm_compute. reflexivity. Qed.
+
+Example batch_union_sound_vs_lying_oracle :
+  (match batch_union VoxOps vovl (fun l => Z.of_nat (length (fst l))) 1000 [ov_a; ov_b; ov_c] with
+   | Some r => vox_seteq (lden VoxOps r) (bigU VoxOps (map (lden VoxOps) [ov_a; ov_b; ov_c]))
+   | None => false end = true) /\
+  (match batch_union VoxOps (fun _ _ => false) (fun l => Z.of_nat (length (fst l))) 1000 [ov_a; ov_b; ov_c] with
+   | Some r => vox_seteq (lden VoxOps r) (bigU VoxOps (map (lden VoxOps) [ov_a; ov_b; ov_c]))
+   | None => true end = false) /\
+  vovl ov_a ov_b = true /\ vovl ov_a ov_c = false.
+Proof. vm_compute. repeat split; reflexivity. Qed.
+
+(* compose_is_union_when_disjoint at the concrete instance, with the concrete oracle: no hypothesis left *)
+Theorem compose_is_union_voxels_thm (sz : (list vox * list gen) -> Z) (kmax : nat) (l : list (list vox * list gen)) :
+  2 <= kmax -> l <> [] ->
+  exists r, batch_union VoxOps vovl sz kmax l = Some r /\
+            (forall p, In p (lden VoxOps r) <-> exists x, In x l /\ In p (lden VoxOps x)).
+Proof.
+  intros K Hne. destruct (batch_union_ok VoxOps VoxLaws vovl sz kmax vovl_sound K l Hne) as (r & E & D).
+  exists r. split; [exact E|]. intros p. cbn in D. rewrite (D p).
+  change (In p (fold_right vunion [] (map (lden VoxOps) l)) <-> exists x, In x l /\ In p (lden VoxOps x)).
+  rewrite In_bigU_vox. split.
+  - intros (s & Hs & Hp). apply in_map_iff in Hs. destruct Hs as (x & <- & Hx). eauto.
+  - intros (x & Hx & Hp). exists (lden VoxOps x). split; [apply in_map; assumption|assumption].
+Qed.
